@@ -240,6 +240,9 @@ struct Ctx
   std::atomic<int> go{0}, arrived{0};
   std::atomic<bool> quiesce{false};   // submitters stop issuing new submissions
   std::atomic<bool> stopBegun{false}; // set BEFORE drain/stop/shutdown/delete is called
+  // even: the pool is meant to accept (0 = since construction, 2, 4, ... = since the harness entered the
+  // start() of a restart); odd: a drain/stop/shutdown/destruction has been issued and not yet undone
+  std::atomic<long> epoch{0};
   std::atomic<bool> afterStop{false}; // set AFTER stop()/shutdown()/delete returned
   std::atomic<long> started{0};       // bodies started (each start follows its pop from the queue)
   std::atomic<long> notRefused{0};    // submissions begun and not (yet) refused
@@ -439,6 +442,10 @@ void submit(Ctx *cx, int id)
   int reason = rNone;
   bool accepted = false, unknown = false;
   std::string msg;
+  // "the pool is open": no drain/stop/shutdown/destruction outstanding when the call starts, and - after a
+  // restart - the harness itself has seen getState() == Running since start() was entered
+  const long epochBefore = cx->epoch.load(std::memory_order_acquire);
+  const bool sawOpen = (epochBefore % 2 == 0) && (epochBefore == 0 || cx->pool->getState() == iora::common::LifecycleState::Running);
   try
   {
     switch (t.api)
@@ -486,7 +493,8 @@ void submit(Ctx *cx, int id)
   }
   // ---- refused: can the stated (or only possible) reason be proven false? ------------------------
   const long nonRefusedAfter = cx->notRefused.load(std::memory_order_acquire); // includes this call
-  const bool stopBegunAfter = cx->stopBegun.load(std::memory_order_acquire);
+  // justified by a stop-like call unless the pool was seen open before the call and nothing was issued since
+  const bool stopBegunAfter = !(sawOpen && cx->epoch.load(std::memory_order_acquire) == epochBefore);
   cx->notRefused.fetch_sub(1, std::memory_order_acq_rel);
   t.reason.store(reason);
   t.status.store(sRefused, std::memory_order_release);
@@ -506,7 +514,8 @@ void submit(Ctx *cx, int id)
     if (cx->unjustifiedWhat.empty())
       cx->unjustifiedWhat = pbt::Fmt() << "task " << id << " refused (" << (reason == rTryFalse ? std::string("tryEnqueue returned false") : msg)
                                        << ") although at most " << pendingUpper << " tasks could be pending (maxQueueSize " << cx->maxQueue
-                                       << ") and drain/stop/shutdown/destruction had " << (stopBegunAfter ? "" : "not ") << "begun";
+                                       << ") and drain/stop/shutdown/destruction had " << (stopBegunAfter ? "" : "not ") << "begun"
+                                       << (epochBefore > 0 ? " (restarted pool: getState() == Running was observed after start() had been entered)" : "");
   }
 }
 
@@ -523,6 +532,105 @@ std::string unfinishedAccepted(Ctx &cx)
       return pbt::Fmt() << "task " << i << " had been accepted and " << (t.exec.load() ? "was still running" : "had not started");
   }
   return std::string();
+}
+
+void beginStop(Ctx &cx)
+{
+  cx.stopBegun.store(true, std::memory_order_release);
+  if (cx.epoch.load(std::memory_order_acquire) % 2 == 0) cx.epoch.fetch_add(1, std::memory_order_acq_rel);
+}
+
+// ---- restart cycles: reset() is only allowed from Stopped, start() only from Reset, i.e. the one legal
+// sequence is stop() -> reset() -> start(). The wave's submitters poll getState() and submit the moment it
+// says Running. All wave tasks are created before the pool runs (cx.tasks must not grow under the workers).
+struct RestartPlan
+{
+  int cycles = 0;
+  std::vector<std::vector<std::vector<int>>> waves; // [cycle][submitter] -> task ids
+  std::vector<int> stopDelayUs;                     // per cycle: pause between start() and the next stop()
+  std::vector<char> joinBeforeStop;                 // per cycle: let the wave finish submitting first
+  bool perturbStart = false;                        // seeded delay before every mutex lock inside start()
+  std::uint64_t seed = 0;
+};
+struct RestartOutcome
+{
+  std::string early; // violation text (stop returned with unfinished accepted work)
+  std::string label;
+  int done = 0;
+};
+void restartCycles(Ctx &cx, const RestartPlan &rp, RestartOutcome &out)
+{
+  using iora::common::LifecycleState;
+  for (int cyc = 0; cyc < rp.cycles; ++cyc)
+  {
+    auto rr = cx.pool->reset();
+    if (!rr.success)
+    {
+      out.label = "reset() not possible: " + rr.message.substr(0, 40);
+      return;
+    }
+    const auto &wave = rp.waves[static_cast<std::size_t>(cyc)];
+    std::atomic<bool> abortWave{false};
+    std::atomic<int> ready{0};
+    const long openEpoch = cx.epoch.load(std::memory_order_acquire) + 1; // even
+    std::vector<std::thread> th;
+    for (std::size_t s = 0; s < wave.size(); ++s)
+      th.emplace_back(
+        [&, s]
+        {
+          ready.fetch_add(1, std::memory_order_acq_rel);
+          // wait for "start() entered", then for Running - but never beyond the next stop (a slow thread
+          // then simply submits late and collects justified refusals)
+          while (cx.epoch.load(std::memory_order_acquire) < openEpoch && !abortWave.load(std::memory_order_acquire)) {}
+          while (cx.pool->getState() != LifecycleState::Running && cx.epoch.load(std::memory_order_acquire) == openEpoch &&
+                 !abortWave.load(std::memory_order_acquire))
+          {
+          }
+          if (abortWave.load(std::memory_order_acquire)) return;
+          for (int id : wave[s]) submit(&cx, id); // the moment the pool says Running
+          atomicMax(cx.maxThreads, cx.pool->getTotalThreadCount());
+        });
+    while (ready.load(std::memory_order_acquire) < static_cast<int>(wave.size())) std::this_thread::yield();
+    cx.afterStop.store(false, std::memory_order_release);
+    cx.stopBegun.store(false, std::memory_order_release);
+    cx.epoch.store(openEpoch, std::memory_order_release); // "start() entered"
+    iora::common::LifecycleResult sr;
+    {
+      sched::Arm arm(rp.seed, 700u + static_cast<std::uint32_t>(cyc), 300, (rp.perturbStart && sched::kInterposed) ? 1 : 0, sched::kMutexLock);
+      sr = cx.pool->start();
+    }
+    auto joinWave = [&]
+    {
+      for (auto &t : th)
+        if (t.joinable()) t.join();
+    };
+    if (!sr.success)
+    {
+      abortWave.store(true, std::memory_order_release);
+      joinWave();
+      out.label = "start() not possible: " + sr.message.substr(0, 40);
+      beginStop(cx);
+      return;
+    }
+    if (rp.joinBeforeStop[static_cast<std::size_t>(cyc)]) joinWave();
+    if (rp.stopDelayUs[static_cast<std::size_t>(cyc)]) sched::sleepUs(static_cast<std::uint32_t>(rp.stopDelayUs[static_cast<std::size_t>(cyc)]));
+    beginStop(cx);
+    auto st = cx.pool->stop();
+    if (st.success)
+    {
+      cx.afterStop.store(true, std::memory_order_release);
+      out.early = unfinishedAccepted(cx);
+      if (!out.early.empty()) out.early += " when the stop() of restart cycle " + std::to_string(cyc + 1) + " returned success";
+    }
+    joinWave();
+    ++out.done;
+    if (!st.success)
+    {
+      out.label = "stop() of a restart cycle reported failure";
+      return;
+    }
+    if (!out.early.empty()) return;
+  }
 }
 
 struct SubOp
@@ -565,6 +673,7 @@ struct Plan
   int endDelaySel = 0;
   std::uint64_t seed = 0;
   std::uint32_t oneIn = 0, maxDelay = 0;
+  RestartPlan restart;            // after a successful stop(): reset() -> start() -> wave -> stop(), 0-2 times
   std::uint32_t secondLockUs = 0; // scripted delay before the 2nd mutex lock of a submission (the one after the spawn decision)
   std::vector<std::vector<SubOp>> subs;
 };
@@ -643,7 +752,7 @@ void run(Plan &pl, Ctx &cx, pbt::Case &c)
     joinSubs();
   }
   pendingAtStop = cx.pool->getPendingTaskCount() > 0;
-  cx.stopBegun.store(true, std::memory_order_release);
+  beginStop(cx);
   switch (pl.endMode)
   {
   case 1:
@@ -705,6 +814,16 @@ void run(Plan &pl, Ctx &cx, pbt::Case &c)
       stopFailed = true;
       stopMsg = r.message;
     }
+  }
+  int restartsDone = 0;
+  std::string restartLabel;
+  if (earlyWhat.empty() && !stopFailed && (pl.endMode == 1 || pl.endMode == 4) && pl.restart.cycles > 0)
+  {
+    RestartOutcome ro;
+    restartCycles(cx, pl.restart, ro);
+    earlyWhat = ro.early;
+    restartsDone = ro.done;
+    restartLabel = ro.label;
   }
   if (!earlyWhat.empty())
   {
@@ -831,6 +950,8 @@ void run(Plan &pl, Ctx &cx, pbt::Case &c)
   // not part of C09's statement (it speaks of stop/destruction): drain() polls "active == 0 && pending == 0",
   // and a worker that has popped a task but not yet counted itself active is invisible to it
   if (cx.bodiesAfterDrain.load()) c.label("observation: a task body started after drain() had reported completion");
+  if (restartsDone) c.label("restart cycles (stop -> reset -> start -> wave -> stop)");
+  if (!restartLabel.empty()) c.label(restartLabel);
   if (stopFailed) c.label("drain()/stop() reported failure: " + stopMsg.substr(0, 40));
   if (static_cast<std::size_t>(cx.maxRunning.load()) == pl.maxSize) c.label("bodies reached maxSize concurrency");
   if (cx.maxThreads.load() == pl.maxSize) c.label("thread count reached maxSize");
@@ -918,6 +1039,40 @@ void generated(pbt::Src &src, pbt::Case &c)
     }
     d << "\n";
     pl.subs.push_back(std::move(ops));
+  }
+  // restart cycles behind a stop()-type end (tasks created now: the task table must not grow later)
+  {
+    const int cycles = static_cast<int>(src.weighted({4, 2, 1}));
+    pl.restart.seed = pl.seed;
+    pl.restart.perturbStart = src.coin(1, 2);
+    for (int cyc = 0; cyc < 2; ++cyc)
+    {
+      const int ns = static_cast<int>(src.range(1, 3));
+      const int nt = static_cast<int>(src.range(1, 3));
+      const int spec = static_cast<int>(src.range(0, 999));
+      const int sd = static_cast<int>(src.oneOf<int>({0, 0, 200, 2000}));
+      const bool jb = src.coin(2, 3);
+      if (cyc >= cycles || !(pl.endMode == 1 || pl.endMode == 4)) continue;
+      std::vector<std::vector<int>> wave;
+      for (int sI = 0; sI < ns; ++sI)
+      {
+        std::vector<int> ids;
+        for (int k = 0; k < nt; ++k)
+        {
+          static const int wk[] = {kVoid, kValue, kThrow, kSleep};
+          int id = addTask(cx, wk[(spec / (1 + sI + k)) % 4], (spec / (3 + sI * 3 + k)) % 3, 100);
+          cx.tasks[static_cast<std::size_t>(id)]->throwKind = (spec / (2 + k)) % kThrowKinds;
+          ids.push_back(id);
+        }
+        wave.push_back(ids);
+      }
+      pl.restart.waves.push_back(wave);
+      pl.restart.stopDelayUs.push_back(sd);
+      pl.restart.joinBeforeStop.push_back(jb ? 1 : 0);
+      ++pl.restart.cycles;
+      d << " restart cycle " << (cyc + 1) << ": " << ns << " submitter(s) x " << nt << " task(s) the moment getState()==Running" << (jb ? ", wave completes" : "")
+        << ", " << sd << " us, stop()\n";
+    }
   }
   // at most ONE fork-join parent per plan, only where a worker is provably available for the child:
   // maxSize >= 2, the queue can never be full (all tasks of the plan fit), all other tasks are short
@@ -1144,7 +1299,7 @@ void runSlow(const SlowPlan &pl, SlowResult &res)
   }
   for (int id : shortIds) submit(&cx, id);
   if (pl.offsetMs) sched::sleepUs(static_cast<std::uint32_t>(pl.offsetMs) * 1000);
-  cx.stopBegun.store(true, std::memory_order_release);
+  beginStop(cx);
   std::string early;
   auto judge = [&](const char *call)
   {
@@ -1320,12 +1475,20 @@ struct EdgePlan
   int nBefore = 0, nAfter = 0; // short tasks around the fork-join parent
   bool letWorkersExit = false; // fork shape: pause > idle timeout between the short tasks and the parent
   bool waitParentStarted = false; // fork shape: the end call is not made before the parent body runs
+  // restart shape (2): a few tasks, stop(), then 1-3 x [reset(), start(), wave of submitters that submit the
+  // moment getState() == Running, stop()]; initialSize up to 8 widens start()'s spawn loop
+  int cycles = 1, waveSubs = 2, waveTasks = 2, waveSpec = 0;
+  bool perturbStart = true;
 };
 
 std::string edgeText(const EdgePlan &p)
 {
   pbt::Fmt f;
-  if (p.shape == 0)
+  if (p.shape == 2)
+    f << "[restart: pool(" << p.initial << "," << p.maxSize << ",idle=" << p.idleMs << "ms) 2 tasks, stop(), " << p.cycles << " x {reset(), start()"
+      << (p.perturbStart ? " with delayed locks" : "") << ", " << p.waveSubs << " submitter(s) x " << p.waveTasks
+      << " task(s) the moment getState()==Running, stop()}, then ~ThreadPool()]";
+  else if (p.shape == 0)
     f << "[idle: pool(0," << p.maxSize << ",idle=" << p.idleMs << "ms) " << p.maxSize << " warm-up task(s), last submission (" << kindName(p.finalKind) << " via "
       << apiName(p.finalApi) << ") " << p.offsetUs << " us after the idle timeout, retiring workers held " << p.gapUs << " us, then "
       << (p.endMode ? "shutdown()" : "~ThreadPool()") << "]";
@@ -1356,7 +1519,57 @@ void runEdge(const EdgePlan &pl, SlowResult &res)
       sched::sleepUs(30);
     }
   };
-  if (pl.shape == 0)
+  if (pl.shape == 2)
+  {
+    RestartPlan rp;
+    rp.seed = static_cast<std::uint64_t>(pl.waveSpec) + 17;
+    rp.perturbStart = pl.perturbStart;
+    std::vector<int> first{addTask(cx, kValue, aResult, 0), addTask(cx, kVoid, aEnqueue, 0)};
+    for (int cyc = 0; cyc < pl.cycles; ++cyc)
+    {
+      std::vector<std::vector<int>> wave;
+      for (int sI = 0; sI < pl.waveSubs; ++sI)
+      {
+        std::vector<int> ids;
+        for (int k = 0; k < pl.waveTasks; ++k)
+        {
+          static const int wk[] = {kValue, kVoid, kThrow, kSleep};
+          int id = addTask(cx, wk[(pl.waveSpec / (1 + sI + k + cyc)) % 4], (pl.waveSpec / (3 + sI * 3 + k) + cyc) % 3, 100);
+          cx.tasks[static_cast<std::size_t>(id)]->throwKind = (pl.waveSpec / (2 + k)) % kThrowKinds;
+          ids.push_back(id);
+        }
+        wave.push_back(ids);
+      }
+      rp.waves.push_back(wave);
+      rp.stopDelayUs.push_back((pl.waveSpec / (5 + cyc)) % 3 == 0 ? 500 : 0);
+      rp.joinBeforeStop.push_back((pl.waveSpec / (7 + cyc)) % 3 != 0 ? 1 : 0);
+      ++rp.cycles;
+    }
+    for (int id : first) submit(&cx, id);
+    beginStop(cx);
+    auto st = cx.pool->stop();
+    std::string early;
+    if (st.success)
+    {
+      cx.afterStop.store(true, std::memory_order_release);
+      early = unfinishedAccepted(cx);
+      if (early.empty())
+      {
+        RestartOutcome ro;
+        restartCycles(cx, rp, ro);
+        early = ro.early;
+        res.label = ro.label;
+      }
+    }
+    if (!early.empty())
+    {
+      cxp.release();
+      res.sig = "C09/stop-returned-before-accepted-task-finished";
+      res.what = early;
+      return;
+    }
+  }
+  else if (pl.shape == 0)
   {
     std::vector<int> warm;
     for (std::size_t i = 0; i < pl.maxSize; ++i)
@@ -1395,7 +1608,7 @@ void runEdge(const EdgePlan &pl, SlowResult &res)
       while (cx.tasks[static_cast<std::size_t>(parent)]->status.load() == sAccepted && cx.tasks[static_cast<std::size_t>(parent)]->exec.load() == 0) sched::sleepUs(30);
   }
   if (pl.endDelayUs) sched::sleepUs(static_cast<std::uint32_t>(pl.endDelayUs));
-  cx.stopBegun.store(true, std::memory_order_release);
+  beginStop(cx);
   std::string early;
   if (pl.endMode == 2)
   {
@@ -1442,7 +1655,8 @@ void runEdgeCase(std::vector<EdgePlan> &plans, pbt::Case &c)
       return;
     }
     inconclusive = inconclusive || res.inconclusive;
-    c.label(p.shape == 0 ? (p.gapUs && sched::kInterposed ? "idle boundary, retiring worker held" : "idle boundary, natural timing") : "fork-join parent");
+    c.label(p.shape == 2 ? "restart cycles" : p.shape == 0 ? (p.gapUs && sched::kInterposed ? "idle boundary, retiring worker held" : "idle boundary, natural timing") : "fork-join parent");
+    if (!res.label.empty()) c.label(res.label);
   }
   if (inconclusive) c.inconclusive("submission threw an undocumented exception");
   c.nontrivial(pbt::hash64(d));
@@ -1486,6 +1700,20 @@ void generatedEdge(pbt::Src &src, pbt::Case &c)
     }
     plans.push_back(p);
   }
+  {
+    EdgePlan p;
+    p.shape = 2;
+    p.endMode = 0;
+    p.maxSize = 8;
+    p.initial = static_cast<std::size_t>(src.range(1, 8));
+    p.idleMs = 20;
+    p.cycles = static_cast<int>(src.range(1, 3));
+    p.waveSubs = static_cast<int>(src.range(1, 4));
+    p.waveTasks = static_cast<int>(src.range(1, 3));
+    p.waveSpec = static_cast<int>(src.range(0, 999));
+    p.perturbStart = src.coin(3, 4);
+    plans.push_back(p);
+  }
   runEdgeCase(plans, c);
 }
 
@@ -1505,6 +1733,26 @@ void idleExitRegression(pbt::Case &c)
     p.finalKind = kValue;
     p.finalApi = i % 3;
     p.endMode = 0;
+    plans.push_back(p);
+  }
+  runEdgeCase(plans, c);
+}
+void restartRegression(pbt::Case &c)
+{
+  pbt::watchdog(150, "C09/shutdown-stalled");
+  std::vector<EdgePlan> plans;
+  for (int i = 0; i < 3; ++i)
+  {
+    EdgePlan p;
+    p.shape = 2;
+    p.initial = 8;
+    p.maxSize = 8;
+    p.idleMs = 20;
+    p.cycles = 2;
+    p.waveSubs = 3;
+    p.waveTasks = 2;
+    p.waveSpec = 100 + 37 * i;
+    p.perturbStart = true;
     plans.push_back(p);
   }
   runEdgeCase(plans, c);
@@ -1565,6 +1813,7 @@ PBT_REGRESSION(worker_idle_exit_before_registration) { c09::idleExitBeforeRegist
 PBT_PROPERTY(pool) { c09::generated(src, c); }
 PBT_PROPERTY(pool_slow) { c09::generatedSlow(src, c); }
 PBT_PROPERTY(pool_edge) { c09::generatedEdge(src, c); }
+PBT_REGRESSION(restarted_pool_accepts_as_soon_as_it_reports_running) { c09::restartRegression(c); }
 PBT_REGRESSION(future_rethrows_exactly_what_the_task_threw) { c09::throwKindsRegression(c); }
 PBT_REGRESSION(last_submission_at_idle_exit) { c09::idleExitRegression(c); }
 PBT_REGRESSION(fork_join_child_runs_while_parent_waits) { c09::forkJoinRegression(c); }
